@@ -216,6 +216,14 @@ fn run(op: &Value) -> Value {
                         conjure_http::private::decode_default_serializable_response::<Option<i32>, _>(mk_resp(op, items(&chunks).into_iter())).map(|v| format!("{:?}", v)),
                         futures::executor::block_on(conjure_http::private::async_decode_default_serializable_response::<Option<i32>, _>(mk_resp(op, futures::stream::iter(items(&chunks))))).map(|v| format!("{:?}", v)),
                     ),
+                    "binary" => (
+                        conjure_http::private::decode_binary_response(mk_resp(op, items(&chunks).into_iter())).map(|_| "body".to_string()),
+                        conjure_http::private::decode_binary_response(mk_resp(op, futures::stream::iter(items(&chunks)))).map(|_| "body".to_string()),
+                    ),
+                    "optional_binary" => (
+                        conjure_http::private::decode_optional_binary_response(mk_resp(op, items(&chunks).into_iter())).map(|v| if v.is_some() { "some".to_string() } else { "none".to_string() }),
+                        conjure_http::private::decode_optional_binary_response(mk_resp(op, futures::stream::iter(items(&chunks)))).map(|v| if v.is_some() { "some".to_string() } else { "none".to_string() }),
+                    ),
                     _ => (
                         conjure_http::private::decode_empty_response(mk_resp(op, items(&chunks).into_iter())).map(|_| "()".to_string()),
                         futures::executor::block_on(conjure_http::private::async_decode_empty_response(mk_resp(op, futures::stream::iter(items(&chunks))))).map(|_| "()".to_string()),
@@ -223,6 +231,22 @@ fn run(op: &Value) -> Value {
                 };
                 json!({"blocking": show(b), "async": show(a)})
             }
+        }
+        "server_body_opt_bin" => {
+            // C06: OptionalRequestDeserializer and BinaryRequestDeserializer on one chunk with a given Content-Type (or none)
+            use conjure_http::server::conjure::{BinaryRequestDeserializer, OptionalRequestDeserializer};
+            use conjure_http::server::{ConjureRuntime, DeserializeRequest};
+            let rt = ConjureRuntime::new();
+            let mut headers = http::HeaderMap::new();
+            if let Some(ct) = op["content_type"].as_str() {
+                headers.insert(http::header::CONTENT_TYPE, http::HeaderValue::from_str(ct).unwrap());
+            }
+            let chunk = hex(op["chunk"].as_str().unwrap_or(""));
+            let items = |c: &Vec<u8>| -> std::vec::IntoIter<Result<bytes::Bytes, conjure_error::Error>> { if c.is_empty() { vec![].into_iter() } else { vec![Ok(bytes::Bytes::from(c.clone()))].into_iter() } };
+            let o = <OptionalRequestDeserializer as DeserializeRequest<Option<i32>, _>>::deserialize(&rt, &headers, items(&chunk));
+            let b = <BinaryRequestDeserializer as DeserializeRequest<_, _>>::deserialize(&rt, &headers, items(&chunk)).map(|_: std::vec::IntoIter<Result<bytes::Bytes, conjure_error::Error>>| ());
+            json!({"optional": match o { Ok(Some(v)) => format!("some:{}", v), Ok(None) => "none".to_string(), Err(_) => "err".to_string() },
+                   "binary": if b.is_ok() { "ok" } else { "err" }})
         }
         "server_body" => {
             use conjure_error::Error;
@@ -853,6 +877,14 @@ fn run(op: &Value) -> Value {
                 json!({"ok": params == want && se.error_name() == "Ns:E" && format!("{:?}", se.error_code()) == "InvalidArgument" && back == se && s == vec!["b".to_string()] && pe.safe_params().iter().count() == 0 && pe.unsafe_params().iter().count() == 4,
                        "params": format!("{:?}", params), "safe": s})
             }
+        }
+        "plain_f64_text" => {
+            // C12: from_plain::<f64> of an arbitrary text against the statement: the three spellings, otherwise the library parser
+            let text = String::from_utf8(hex(op["hex"].as_str().unwrap())).unwrap_or_default();
+            let got = f64::from_plain(&text).ok();
+            let want: Option<f64> = match text.as_str() { "Infinity" => Some(f64::INFINITY), "-Infinity" => Some(f64::NEG_INFINITY), "NaN" => Some(f64::NAN), t => t.parse().ok() };
+            let same = match (got, want) { (Some(a), Some(b)) => a.to_bits() == b.to_bits() || (a.is_nan() && b.is_nan()), (None, None) => true, _ => false };
+            json!({"ok": same, "got": format!("{:?}", got), "want": format!("{:?}", want)})
         }
         "plain_f64" => {
             let v = f64::from_bits(op["bits"].as_str().unwrap().parse().unwrap());
